@@ -263,12 +263,17 @@ func ZZ_C05_ZipPack() {
 	p := NewZipPack()
 	zz5Fill(p, true)
 	if zz5Focus == -1 { // blob length classes
-		sizes := []int{1, 253, 254, 300}
-		if zzvf.Thorough() {
-			sizes = append(sizes, 65535, 65536)
-		}
+		// 65535 / 65536: all bytes symbolic in the thorough tier; in the quick tier zero bytes
+		// with a symbolic last one (the length class is what matters)
+		sizes := []int{1, 253, 254, 300, 65535, 65536}
 		if k := sizes[zzvf.Choose(len(sizes))]; k > 1 {
-			p.Records = zzvf.Bytes(k)
+			if k > 300 && !zzvf.Thorough() {
+				b := make([]byte, k)
+				b[k-1] = zzvf.Byte()
+				p.Records = b
+			} else {
+				p.Records = zzvf.Bytes(k)
+			}
 		}
 	}
 	zz5HeaderForm(p)
